@@ -510,6 +510,10 @@ func TestC17Handshake(t *testing.T) {
 				rt.Fatalf("%s: NewHandshake of %s panicked: %v", s, E, r.Panic)
 			}
 			c.Class(fmt.Sprintf("leg%s:eph=%s", E, strings.SplitN(s.plan[i].eph, ":", 2)[0]))
+			if s.plan[i].eph == "own" {
+				c.Class("knownleg:sig=" + s.plan[i].sig)
+				c.Class("knownleg:meta=" + s.plan[i].meta)
+			}
 			if !r.OK() {
 				c.Class("endpoint-rejected")
 				continue
